@@ -326,6 +326,29 @@ func (c *Ctx) counterStep(post ast.Stmt, o types.Object) int {
 			return -1
 		}
 	case *ast.AssignStmt:
+		if len(s.Lhs) > 1 && len(s.Lhs) == len(s.Rhs) && s.Tok == token.ASSIGN {
+			// i, left = i+1, left-1: every right-hand side mentions only its own variable
+			for k, lh := range s.Lhs {
+				if c.obj(lh) != o {
+					continue
+				}
+				b, ok := ast.Unparen(s.Rhs[k]).(*ast.BinaryExpr)
+				if !ok || c.obj(b.X) != o {
+					return 0
+				}
+				tv, ok := c.Info.Types[b.Y]
+				if !ok || tv.Value == nil || tv.Value.ExactString() != "1" {
+					return 0
+				}
+				if b.Op == token.ADD {
+					return 1
+				}
+				if b.Op == token.SUB {
+					return -1
+				}
+			}
+			return 0
+		}
 		if len(s.Lhs) != 1 || len(s.Rhs) != 1 || c.obj(s.Lhs[0]) != o {
 			return 0
 		}
@@ -427,6 +450,57 @@ func (v *sxView) rangeRewrite(l *LoopRec, val *types.Var) *rangeRw {
 	}
 	var ctr, bound Term
 	desc := false
+	// a countdown of the remaining elements next to the ascending position: `for i, left := 0, N; left > 0; i, left = i+1, left-1`
+	// is `for i := 0; i < N; i++` when `left` is used for nothing else
+	var co types.Object
+	{
+		var left Term
+		zero := func(t Term) bool { k, ok := constInt(t); return ok && k == 0 }
+		switch {
+		case (cond.Op == token.GTR || cond.Op == token.NEQ) && zero(cond.Y):
+			left = cond.X
+		case (cond.Op == token.LSS || cond.Op == token.NEQ) && zero(cond.X):
+			left = cond.Y
+		}
+		if ll, ok := left.(TLoop); ok && ll.ID == l.ID && v.c.counterStep(l.Post, ll.Obj) == -1 && l.Init[ll.Obj] != nil {
+			var up types.Object
+			for _, a := range v.c.assignedInStmt(l.Post) {
+				if a != ll.Obj && v.c.counterStep(l.Post, a) == 1 {
+					if k, ok := constInt(l.Init[a]); ok && k == 0 && up == nil {
+						up = a
+					}
+				}
+			}
+			used := false
+			for _, p := range l.Iter {
+				q := *p
+				q.Env = nil
+				for o, t := range p.Env {
+					if o == ll.Obj {
+						if !sameTerm(t, ll) {
+							used = true
+						}
+						continue
+					}
+					collectSubterms(t, func(u Term) {
+						if x, ok := u.(TLoop); ok && x.ID == l.ID && x.Obj == ll.Obj {
+							used = true
+						}
+					})
+				}
+				mapPath(&q, func(u Term) (Term, bool) {
+					if x, ok := u.(TLoop); ok && x.ID == l.ID && x.Obj == ll.Obj {
+						used = true
+					}
+					return nil, false
+				})
+			}
+			if up != nil && !used {
+				co = ll.Obj
+				cond = TBin{Op: token.LSS, X: TLoop{up, l.ID}, Y: l.Init[ll.Obj]}
+			}
+		}
+	}
 	switch cond.Op {
 	case token.LSS:
 		ctr, bound = cond.X, cond.Y
@@ -473,7 +547,7 @@ func (v *sxView) rangeRewrite(l *LoopRec, val *types.Var) *rangeRw {
 	}
 	// the post statement assigns nothing but the counter, the body does not assign the counter
 	for _, a := range v.c.assignedInStmt(l.Post) {
-		if a != i {
+		if a != i && a != co {
 			return nil
 		}
 	}
@@ -838,28 +912,75 @@ func (v *sxView) normalizeMapKeyLoads(paths []*Path) []*Path {
 
 // condValue: what the conditions of p say about the boolean term t.
 func condValue(p *Path, t Term) (val, known bool) {
-	want := true
-	for {
-		u, ok := t.(TUn)
-		if !ok || u.Op != token.NOT {
-			break
-		}
-		t, want = u.X, !want
-	}
-	for _, cd := range p.Conds() {
-		x, truth := cd.T, cd.Truth
+	// polarity normal form: leading negations stripped, a != b read as !(a == b)
+	norm := func(t Term, pol bool) (Term, bool) {
 		for {
-			u, ok := x.(TUn)
-			if !ok || u.Op != token.NOT {
-				break
+			if u, ok := t.(TUn); ok && u.Op == token.NOT {
+				t, pol = u.X, !pol
+				continue
 			}
-			x, truth = u.X, !truth
+			if b, ok := t.(TBin); ok && b.Op == token.NEQ {
+				t, pol = TBin{Op: token.EQL, X: b.X, Y: b.Y}, !pol
+				continue
+			}
+			return t, pol
 		}
-		if sameTerm(x, t) {
+	}
+	same := func(a, b Term) bool {
+		if sameTerm(a, b) {
+			return true
+		}
+		x, ok1 := a.(TBin)
+		y, ok2 := b.(TBin)
+		return ok1 && ok2 && x.Op == token.EQL && y.Op == token.EQL && sameTerm(x.X, y.Y) && sameTerm(x.Y, y.X)
+	}
+	t, want := norm(t, true)
+	for _, cd := range p.Conds() {
+		x, truth := norm(cd.T, cd.Truth)
+		if same(x, t) {
 			return truth == want, true
 		}
 	}
 	return false, false
+}
+
+// boolUnder evaluates a boolean term under the conditions of path p: constants, !, &&, || (short-circuit: an operand that is
+// not reached need not be decided), otherwise what the path's conditions say about the term.
+func boolUnder(p *Path, t Term) (val, known bool) {
+	if b, ok := constBoolOf(t); ok {
+		return b, true
+	}
+	switch x := t.(type) {
+	case TUn:
+		if x.Op == token.NOT {
+			v, ok := boolUnder(p, x.X)
+			return !v, ok
+		}
+	case TBin:
+		switch x.Op {
+		case token.LAND:
+			a, oka := boolUnder(p, x.X)
+			if oka && !a {
+				return false, true
+			}
+			b, okb := boolUnder(p, x.Y)
+			if okb && !b {
+				return false, true
+			}
+			return true, oka && okb
+		case token.LOR:
+			a, oka := boolUnder(p, x.X)
+			if oka && a {
+				return true, true
+			}
+			b, okb := boolUnder(p, x.Y)
+			if okb && b {
+				return true, true
+			}
+			return false, oka && okb
+		}
+	}
+	return condValue(p, t)
 }
 
 func boolTerm(b bool) Term { return TConst{constant.MakeBool(b)} }
@@ -998,6 +1119,35 @@ func insideNode(n ast.Node, outer ast.Node) bool {
 	return n != nil && outer != nil && n.Pos() >= outer.Pos() && n.Pos() < outer.End()
 }
 
+// inLoopExit: the function-level path p, whose last top-level loop step is at index li, left that loop from inside an iteration
+// (SX appends the steps of the leaving iteration after the loop step).
+func inLoopExit(p *Path, li int) bool {
+	if p.End != "return" && p.End != "panic" {
+		return false
+	}
+	l := p.Steps[li].Loop
+	after := p.Steps[li+1:]
+	if len(after) == 0 {
+		return false
+	}
+	for _, ip := range l.Iter {
+		if (ip.End != "return" && ip.End != "panic") || len(ip.Steps) != len(after) {
+			continue
+		}
+		same := true
+		for k := range after {
+			if after[k].Kind != ip.Steps[k].Kind || after[k].Node != ip.Steps[k].Node {
+				same = false
+				break
+			}
+		}
+		if same {
+			return true
+		}
+	}
+	return insideNode(p.Node, l.Node)
+}
+
 // flagNorm applies N1 and N2 to the top-level loops of the paths of one function.
 func (v *sxView) flagNorm(paths []*Path) []*Path {
 	c := v.c
@@ -1027,7 +1177,7 @@ func (v *sxView) flagNorm(paths []*Path) []*Path {
 				q = clonePath(p)
 			}
 			q.Steps[k].Loop = r.l
-			if insideNode(q.Node, s.Loop.Node) && (q.End == "return" || q.End == "panic") {
+			if inLoopExit(q, k) {
 				// an exit from inside this loop: its remaining steps are those of the iteration
 				tail := mapPath(&Path{Steps: q.Steps[k+1:], Vals: q.Vals}, r.sub)
 				q.Steps = append(q.Steps[:k+1:k+1], tail.Steps...)
@@ -1057,15 +1207,6 @@ func (v *sxView) flagNorm(paths []*Path) []*Path {
 			continue
 		}
 		l := p.Steps[li].Loop
-		hasBreak := false
-		for _, ip := range l.Iter {
-			if ip.End == "break" {
-				hasBreak = true
-			}
-		}
-		if !hasBreak {
-			continue
-		}
 		g := groups[l]
 		if g == nil {
 			g = &group{loop: l, li: map[int]int{}}
@@ -1073,7 +1214,7 @@ func (v *sxView) flagNorm(paths []*Path) []*Path {
 			order = append(order, l)
 		}
 		g.li[i] = li
-		if insideNode(p.Node, l.Node) && (p.End == "return" || p.End == "panic") {
+		if inLoopExit(p, li) {
 			g.inloop = append(g.inloop, i)
 			continue
 		}
@@ -1248,8 +1389,31 @@ func (v *sxView) flagNorm(paths []*Path) []*Path {
 			repl[i] = q
 		}
 	}
+	// N3: a boolean result that the conditions of its own path decide is that constant
+	fold := func(ps []*Path) []*Path {
+		for i, p := range ps {
+			if p.End != "return" {
+				continue
+			}
+			for k, t := range p.Vals {
+				if _, isC := constBoolOf(t); isC {
+					continue
+				}
+				if tt := c.termType(t); tt == nil || !types.Identical(tt.Underlying(), types.Typ[types.Bool]) {
+					continue
+				}
+				if b, known := boolUnder(p, t); known {
+					if ps[i] == p {
+						ps[i] = clonePath(p)
+					}
+					ps[i].Vals[k] = boolTerm(b)
+				}
+			}
+		}
+		return ps
+	}
 	if len(drop) == 0 {
-		return cur
+		return fold(cur)
 	}
 	var out []*Path
 	for i, p := range cur {
@@ -1261,5 +1425,5 @@ func (v *sxView) flagNorm(paths []*Path) []*Path {
 		}
 		out = append(out, p)
 	}
-	return append(append(out, added...), last...)
+	return fold(append(append(out, added...), last...))
 }
